@@ -114,6 +114,16 @@ def whole_query_cases(backend):
         ("range-bound-collection", f"ds.Select(lambda e: Range(0, {c}))"),
         ("index-by-object", f"ds.Select(lambda e: {c}[{c}.First()].pt())"),
         ("index-by-collection", f"ds.Select(lambda e: {c}[{c}].pt())"),
+        ("builtin-function-surplus-argument", f"ds.Select(lambda e: {c}.Select(lambda j: DeltaR(j.eta(), j.phi(), 0.5, 0.25, j.pt())))"),
+        ("builtin-function-missing-argument", f"ds.Select(lambda e: {c}.Select(lambda j: DeltaR(j.eta(), j.phi(), 0.5)))"),
+        ("builtin-function-surplus-unsupported-argument", f"ds.Select(lambda e: {c}.Select(lambda j: DeltaR(j.eta(), j.phi(), 0.5, 0.25, 0 < j.pt() < 5)))"),
+        ("declared-function-surplus-argument", "MetaData(ds, {'metadata_type': 'add_cpp_function', 'name': 'vmscale', 'include_files': [], 'arguments': ['x', 'y'], "
+         f"'code': ['double result = x * y;'], 'return_type': 'double'}}).Select(lambda e: {c}.Select(lambda j: vmscale(j.pt(), 2, j.eta())))"),
+        ("declared-function-missing-argument", "MetaData(ds, {'metadata_type': 'add_cpp_function', 'name': 'vmscale', 'include_files': [], 'arguments': ['x', 'y'], "
+         f"'code': ['double result = x * y;'], 'return_type': 'double'}}).Select(lambda e: {c}.Select(lambda j: vmscale(j.pt())))"),
+        ("declared-method-surplus-argument", "MetaData(ds, {'metadata_type': 'add_cpp_function', 'name': 'vmmeth', 'include_files': [], 'arguments': ['x'], "
+         f"'code': ['double result = obj_j->pt() * x;'], 'method_object': 'obj_j', 'instance_object': '{a.primary_cls}', 'return_type': 'double'}})"
+         f".Select(lambda e: {c}.Select(lambda j: j.vmmeth(2, j.eta())))"),
         ("undefined-name", f"ds.Select(lambda e: {c}.Select(lambda j: j.pt() + undefined_thing))"),
         ("unknown-function", f"ds.Select(lambda e: {c}.Select(lambda j: no_such_function(j.pt())))"),
         ("range-one-arg", "ds.Select(lambda e: Range(3))"),
@@ -144,6 +154,9 @@ def whole_query_cases(backend):
         md.update(full)
         if "event_collection" in mt or mt == "inject_code":
             cases.append((f"md-extra-key:{mt}", f"MetaData(ds, {md!r}).Select(lambda e: {c}.Count())"))
+    if backend == "atlas":
+        cases.append(("plugin-method-surplus-argument", f"ds.Select(lambda e: {c}.Select(lambda j: j.getAttributeFloat('w', j.pt())))"))
+        cases.append(("plugin-method-missing-argument", f"ds.Select(lambda e: {c}.Select(lambda j: j.getAttributeFloat()))"))
     cases.append(("md-inject-unknown-field", f"MetaData(ds, {{'metadata_type': 'inject_code', 'name': 'b', 'no_such_field': ['x']}}).Select(lambda e: {c}.Count())"))
     return cases
 
